@@ -743,7 +743,8 @@ def check_self(d, M, failures):
         pass
     enc = _safe(lambda: encode_repo(A))
     if enc != norm_desc(d):
-        raise RuntimeError("codec round trip failed: %s vs %s" % (enc, norm_desc(d)))
+        failures.append({"kind": "corr", "what": "fields of a freshly constructed object differ from the model's constructor",
+                         "detail": "%s: impl %s model %s" % (A, enc, norm_desc(d))})
 
 
 def tags_of(d, pre):
